@@ -597,9 +597,16 @@ def check_molden_centers(ctx, rid):
     i0 = next((i for i, st in enumerate(body) if isinstance(st, ast.Expr) and isinstance(st.value, ast.Call) and any(isinstance(a, ast.Constant) and isinstance(a.value, str) and a.value.strip() == "[GTO]" for a in st.value.args)), None)
     i1 = next((i for i, st in enumerate(body) if isinstance(st, ast.Assign) and isinstance(st.value, ast.Call) and any(cs.node is st.value and cc in cs.callees for cs in do.calls)), None)
     bvar = next((st.targets[0].id for st in body if isinstance(st, ast.Assign) and len(st.targets) == 1 and isinstance(st.targets[0], ast.Name) and isinstance(st.value, ast.Attribute) and st.value.attr == "obasis"), None)
-    if i0 is None or i1 is None or i1 <= i0:
+    helper = helper_call = None
+    if i0 is None:
+        # the section may be written by a helper of the module that dump_one hands the file and the basis to
+        for cs in do.calls:
+            for h in cs.callees:
+                if h.module is do.module and h.parent is None and any(isinstance(x, ast.Constant) and isinstance(x.value, str) and x.value.strip() == "[GTO]" for x in ast.walk(h.node)):
+                    helper, helper_call = h, cs.node
+    if helper is None and (i0 is None or i1 is None or i1 <= i0):
         raise AnalysisError("molden.dump_one: the [GTO] part (from the header to the convert_conventions call) was not found")
-    frag = body[i0:i1]
+    frag = body[i0:i1] if helper is None else [helper.node]
     cases = dict(CASES)
     cases["shells not grouped by atom"] = [1, 0, 1, 2, 0]
     bad = None
@@ -618,7 +625,23 @@ def check_molden_centers(ctx, rid):
         try:
             ev = AccessorEval(prog, iocls, limit=8000)
             ev.module = do.module
-            ev._block(frag, local)
+            if helper is None:
+                ev._block(frag, local)
+            else:
+                from ..astutil import bind_call as _bind
+
+                bound, _extra, _okb = _bind(helper_call, helper)
+                hargs = {}
+                for p_, a_ in bound.items():
+                    if isinstance(a_, ast.Name) and a_.id == do.posparams[0]:
+                        hargs[p_] = sink
+                    elif isinstance(a_, ast.Name) and a_.id == do.posparams[1]:
+                        hargs[p_] = data
+                    elif (isinstance(a_, ast.Name) and a_.id == bvar) or (isinstance(a_, ast.Attribute) and a_.attr == "obasis"):
+                        hargs[p_] = basis
+                    else:
+                        raise AnalysisError(f"molden.dump_one: argument `{ast.unparse(a_)}` of the [GTO] helper is neither the file, the object nor its basis")
+                ev.run_free(helper, [], hargs)
             lines = [ln + "\n" for ln in sink.text.split("\n")]
             if not lines or lines[0].strip() != "[GTO]":
                 bad = f"{label}: the section does not start with [GTO]"
